@@ -176,9 +176,9 @@ func c07Describe(cs c07Case, ga, gb *genetics.Genome) string {
 }
 
 func runC07(c *Ctx) {
-	k := 6
+	k := 8
 	if !c.Quick() {
-		k = 8
+		k = 10
 	}
 	nl := 1 << uint(k)
 	c.Rule = fmt.Sprintf("all ordered pairs of gene lists that are subsets of innovations {1..%d} (empty list included) x 3 mutation-number patterns per list x %d coefficient settings x {linear, fast}; plus self/duplicate pairs; non-trivial = distinct (E,D,matching-count,coefficients) class; oracle = set arithmetic for E, D and mean |mutation difference|", k, len(c07Coeffs))
